@@ -21,6 +21,7 @@ pub trait DObj: Send + Sync {
     fn density(&self, x: f64) -> f64;
     fn mean_var(&self) -> (f64, f64);
     fn draw(&self) -> f64;
+    fn draw_n(&self, n: usize) -> Vec<f64>;
     fn dbg(&self) -> String;
     fn boxed(&self) -> Box<dyn DObj>;
 }
@@ -33,6 +34,7 @@ macro_rules! dobj {
             fn density(&self, x: f64) -> f64 { self.pdf(x) }
             fn mean_var(&self) -> (f64, f64) { (self.mean(), self.var()) }
             fn draw(&self) -> f64 { self.sample() }
+            fn draw_n(&self, n: usize) -> Vec<f64> { self.sample_n(n).to_vec() }
             fn dbg(&self) -> String { format!("{:?}", self) }
             fn boxed(&self) -> Box<dyn DObj> { Box::new(*self) }
         }
@@ -44,6 +46,7 @@ macro_rules! dobj {
             fn density(&self, x: f64) -> f64 { self.pmf(x as i64) }
             fn mean_var(&self) -> (f64, f64) { (self.mean(), self.var()) }
             fn draw(&self) -> f64 { self.sample() }
+            fn draw_n(&self, n: usize) -> Vec<f64> { self.sample_n(n).to_vec() }
             fn dbg(&self) -> String { format!("{:?}", self) }
             fn boxed(&self) -> Box<dyn DObj> { Box::new(*self) }
         }
@@ -376,6 +379,51 @@ pub fn run(run: &Run) {
     for law in laws() {
         explore_law(run_s, Arc::new(law));
     }
+    // bulk draws: from the same seed the same stream, whatever the size of the request (a bulk path
+    // may switch strategy for large requests), for the object, for a repeat and for a fresh twin
+    for l in laws() {
+        let tuples: Vec<Vec<f64>> = [0usize, 1].iter().map(|&k| l.lattice.iter().map(|v| v[k.min(v.len() - 1)]).collect::<Vec<f64>>()).filter(|t| accepts(&l, t)).collect();
+        for t in tuples {
+            let obj = (l.make)(&t);
+            for &n in &[1usize, 100, 4095, 4096, 5000, 20_000] {
+                run.case();
+                run.trs(3);
+                run.ok();
+                run.nontrivial(1);
+                let bulk = |o: &dyn DObj| -> Result<Vec<u64>, String> {
+                    alea::set_seed(SEEDS[0]);
+                    alea::script::reset_draws();
+                    alea::script::set_draw_limit(Some(2_000_000 + 2000 * n as u64));
+                    let r = guard(|| o.draw_n(n));
+                    alea::script::set_draw_limit(None);
+                    r.map(|v| v.iter().map(|x| bits(*x)).collect())
+                };
+                let twin = (l.make)(&t);
+                match (bulk(&*obj), bulk(&*obj), bulk(&*twin)) {
+                    (Ok(a), Ok(b), Ok(c)) => {
+                        if a.len() != n {
+                            run.violate(&format!("{}/bulk/length", l.name), || format!("{}::new({:?}).sample_n({}) returned {} draws", l.name, t, n, a.len()));
+                        } else if a != b {
+                            run.violate(&format!("{}/bulk/not-reproducible", l.name), || format!("{}::new({:?}).sample_n({}) from seed {} twice: the streams differ (first difference at draw {})", l.name, t, n, SEEDS[0], a.iter().zip(&b).position(|(x, y)| x != y).unwrap_or(0)));
+                        } else if a != c {
+                            run.violate(&format!("{}/bulk/twin-differs", l.name), || format!("{}::new({:?}).sample_n({}) from seed {}: a fresh twin gives another stream", l.name, t, n, SEEDS[0]));
+                        } else {
+                            run.outcome(&("bulk", n));
+                            run.regime("bulk-reproducible");
+                        }
+                    }
+                    (a, _, _) => {
+                        if let Err(e) = a {
+                            if !e.contains("livelock") {
+                                run.violate(&format!("{}/bulk/panic", l.name), || format!("{}::new({:?}).sample_n({}): {}", l.name, t, n, e));
+                            }
+                        }
+                    }
+                }
+            }
+        }
+    }
+    run.require_regime("bulk-reproducible");
     // construction of other objects consumes no randomness
     for &seed in &SEEDS {
         run.case();
